@@ -380,6 +380,38 @@ def h_roundtrip_other_types(eng, names, exps):
             eng.prove(ureg.parse_units(format(u, spec), as_delta=False) == u, f"{rname}:unit-roundtrip:{spec or 'default'}")
 
 
+def h_exponent_notation(eng):
+    """(concrete, float registry) the pretty and HTML layouts rewrite exponent notation as
+    a×10^n: every number in the rendered magnitude (negative values, both parts of a complex
+    value) still denotes the value that Python's own format gives"""
+    import re
+
+    import pint
+
+    ureg = pint.UnitRegistry()
+    sup = str.maketrans("⁰¹²³⁴⁵⁶⁷⁸⁹⁻", "0123456789-")
+
+    def decode(text, layout):
+        if layout == "H":
+            return re.sub(r"×10<sup>(-?[0-9]+)</sup>", lambda m: "e" + m.group(1), text)
+        return re.sub(r"×10([⁰¹²³⁴⁵⁶⁷⁸⁹⁻]+)", lambda m: "e" + m.group(1).translate(sup), text)
+
+    mags = [1e-05 + 2e-07j, -2e-07 - 3e9j, 4.5e22 + 1.5e-3j, 1.25e-5 - 7.5e22j, 3.5e22, -1e-05, 6.02e23, 1.5e-300, 2e-07j]
+    for m in mags:
+        for mspec in ("", ".2e", ".4e", ".3g", "e"):
+            want = complex(format(m, mspec).strip("()"))
+            for layout in ("H", "P"):
+                for short in ("", "~"):
+                    text = format(ureg.Quantity(m, "meter"), mspec + short + layout)
+                    mtext = text.rsplit(" ", 1)[0]
+                    try:
+                        got = complex(decode(mtext, layout).strip("()"))
+                    except ValueError:
+                        eng.fail(f"exponent-notation:{mspec + short + layout}:{m!r}:not-a-number", detail=mtext, stop=False)
+                        continue
+                    eng.prove(got == want, f"exponent-notation:{mspec + short + layout}:{m!r}:denotes-the-value")
+
+
 def h_context_and_zero_d(eng):
     """(concrete, float registry) the short formats use the unit's own symbol also while a context
     redefines the unit's value; a 0-d array magnitude is formatted like the scalar it holds"""
@@ -481,5 +513,6 @@ def cases(tier, seed):
         out.append(Case("H09.b", "other-types:" + "*".join(f"{n}^{e}" for n, e in zip(names, exps)), M, "h_roundtrip_other_types", {"names": names, "exps": exps}, kind="conc"))
     out.append(Case("H09.c", "dimensionless", M, "h_dimensionless", {}, validate=1))
     out.append(Case("H09.d", "context-and-zero-d", M, "h_context_and_zero_d", {}, kind="conc"))
+    out.append(Case("H09.d", "exponent-notation", M, "h_exponent_notation", {}, kind="conc"))
     out.append(Case("H09.obs", "observed", "pvlib.harness.observed", "h_c09", {}, kind="conc"))
     return out
